@@ -61,7 +61,10 @@ class SendTask(Task):
         class SendLoop(LoopSpec):
             def invariant(self_, I, fr):
                 ts = I._num(fr.locals["total_sent"], "int")
-                return z3.And(ts >= 0, ts <= I._num(fr.locals["length_data"], "int"))
+                inv = z3.And(ts >= 0, ts <= I._num(fr.locals["length_data"], "int"))
+                if I.ghost.get("closed"):
+                    inv = z3.And(inv, ts == 0)           # nothing can have been handed to a socket that does not exist
+                return inv
 
             def variant(self_, I, fr):
                 return SV(I._num(fr.locals["length_data"], "int") - I._num(fr.locals["total_sent"], "int"), "int")
@@ -98,7 +101,11 @@ class SendTask(Task):
         asock = Obj(I.repo.cls(f"{TR}:AssociationSocket"), tag="asock")
         raw = Env("rawsock")
         raw.truth = True
-        asock.fields.update(socket=raw, _assoc=Env("assoc"), _is_connected=True, _ready=Env("ready"))
+        # the provider may already have closed its own transport (AssociationSocket.close() sets the wrapped socket to None) and
+        # still have an event queued whose action sends (e.g. AA-7 in Sta13): the send must fail softly, like any failed send
+        closed = I.choose(2, "the wrapped socket was already closed by the provider itself") == 1
+        g["closed"] = closed
+        asock.fields.update(socket=None if closed else raw, _assoc=Env("assoc"), _is_connected=not closed, _ready=Env("ready"))
         asock.fields["event_queue"] = Env("asock.event_queue")
         I.cfg.obj_getattr = lambda I_, o, name: (Env("asock.event_queue") if (o is asock and name == "event_queue") else
                                                  (Env("assoc") if (o is asock and name == "assoc") else NotImplemented))
@@ -110,14 +117,18 @@ class SendTask(Task):
         pdu = Env("pdu")
         kind, val = I.run_function(I.repo.func(SEND), [me, pdu])
         I.ob(f"{P}/no-exception-escapes", kind == "return", detail=f"{kind}:{val!r}")
+        if closed:
+            for pfx in ("C27", "C05"):
+                I.ob(f"{pfx}/{TSEND}/a-send-after-the-provider-closed-its-own-socket-is-reported-as-Evt17-and-raises-nothing",
+                     kind == "return" and [e.args[0] for e in I.trace if e.name == "event"] == ["Evt17"], detail=f"{kind}:{val!r}")
         evs = [e.args[0] for e in I.trace if e.name == "evt"]
         if "EVT_PDU_SENT" in evs:
             I.ob(f"{P}/EVT_PDU_SENT-only-after-all-bytes-of-the-PDU-were-handed-to-the-transport",
-                 not g.get("send_failed") and g.get("all_sent") is True,
-                 detail="EVT_PDU_SENT notified although socket.send failed (Evt17 queued)" if g.get("send_failed") else None)
+                 not g.get("send_failed") and not closed and g.get("all_sent") is True,
+                 detail="EVT_PDU_SENT notified although socket.send failed (Evt17 queued)" if (g.get("send_failed") or closed) else None)
         if "EVT_DATA_SENT" in evs:
             I.ob(f"C27/{TSEND}/EVT_DATA_SENT-only-after-all-bytes-were-accepted", not g.get("send_failed") and g.get("all_sent") is True)
-        if g.get("send_failed"):
+        if g.get("send_failed") and not closed:
             I.ob(f"C27/{TSEND}/a-failed-send-is-reported-as-closed-connection", [e.args[0] for e in I.trace if e.name == "event"] == ["Evt17"])
 
 
